@@ -240,7 +240,7 @@ def ruleDeriveType (g : IR) (cx : DeriveCtx) (t : DeriveTrait) (inNodes : Nat â†
   if !i.allowlisted then { const := blocklistedImpl g n } else
   if i.nbn.getD (nbnIndex t) false then { const := 2 } else
   if i.isOpaque then
-    { const := if !canDeriveUnion t && (i.tk == .comp && i.isUnion) && g.opts.untaggedUnion then 2 else 0 }
+    { const := if !canDeriveUnion t && ((g.get (g.canon n)).tk == .comp && (g.get (g.canon n)).isUnion) && g.opts.untaggedUnion then 2 else 0 }
   else
   match i.tk with
   | .void | .nullPtr | .int | .complex | .float | .enum | .typeParam | .unresolvedTypeRef | .reference
